@@ -7,6 +7,7 @@ engines are covered by the model/oracle legs; see DESIGN.md §7 C02 for what rem
 import MinizProof.Gen.All
 import MinizProof.Gen.Facts
 import MinizProof.Lemmas.Finite
+import MinizProof.Lemmas.DeflOut
 set_option maxRecDepth 1000000
 open Fin'
 
@@ -67,6 +68,73 @@ theorem engine_exits_store_all_cached_registers :
     Gen.Facts.engineExits.length ≥ 9 ∧
     (Gen.Facts.engineExits.filter (fun e => e.2.2.2.1.length ≥ 6)).length ≥ 2 := by
   decide +kernel
+
+/-! ### The output staging model (`Model.DeflOut`, tied to the code by the STG correspondence)
+
+`Model.DeflOut.compressInner` mirrors `compress_inner`'s guards, the buffer-sink `flush_output`
+(direct write when ≥ OUT_BUF_SIZE bytes of room are left, otherwise `local_buf` with the rest kept
+pending), the rule that an engine stops when a block leaves bytes pending, the guarded epilogue
+block and `flush_output_buffer`. The engines are a SCRIPT, so the theorems hold for every engine
+behaviour, every output buffer size (including zero) and every flush sequence. The correspondence
+replays every `compress` call of every generated schedule (≈ 70 000 calls per quick run) with the
+`flush_block` events recorded by the hooks: status, bytes written, blocks flushed, epilogue block,
+bytes left pending must agree. -/
+open Model.DeflOut in
+/-- TIES to the regenerated source: the model's staging threshold is the source's `OUT_BUF_SIZE`,
+    and the model refuses a call exactly when the regenerated guard of `compress_inner` does
+    (all 4 statuses × 8 × 8 flush modes). -/
+theorem staging_model_constants_are_source :
+    (Model.DeflOut.OUT_BUF_SIZE : Int) = Gen.Buffer.OUT_BUF_SIZE ∧
+    (∀ st ∈ TDEFLStatus.all, ∀ pf ∈ TDEFLFlush.all, ∀ cf ∈ TDEFLFlush.all,
+      ((compressInner (Stage.mk [] false st pf.toNat) 10 cf.toNat (EngineCall.mk [] false [])).status == stBadParam)
+        = guard_rejects st pf cf) := by
+  refine ⟨by decide +kernel, ?_⟩
+  have h : allIn TDEFLStatus.all (fun st => allIn TDEFLFlush.all (fun pf => allIn TDEFLFlush.all (fun cf =>
+      ((compressInner (Stage.mk [] false st pf.toNat) 10 cf.toNat (EngineCall.mk [] false [])).status == stBadParam)
+        == guard_rejects st pf cf))) = true := by
+    decide +kernel
+  intro st hst pf hp cf hc
+  have := allIn_spec (allIn_spec (allIn_spec h st hst) pf hp) cf hc
+  simpa using this
+
+open Model.DeflOut in
+/-- Per call: never more bytes written than the space offered (down to an empty buffer). -/
+theorem staging_counts_within_space (s : Stage) (c : Call) (h : c.eng.WF) :
+    (compressInner s c.outLen c.flush c.eng).delivered.length ≤ c.outLen := call_within_space s c h
+
+open Model.DeflOut in
+/-- EVERY HISTORY of calls, any buffer sizes, any flush modes, any engine behaviour: the bytes the
+    caller received so far followed by the bytes still pending in `local_buf` are exactly the
+    concatenation of all blocks that went through `flush_block`, in order — nothing lost,
+    duplicated or reordered by the staging. -/
+theorem staging_conserves_bytes (cs : List Call) (h : ∀ c ∈ cs, c.eng.WF) :
+    (runCalls {} cs).2.1 ++ (runCalls {} cs).1.pending = (runCalls {} cs).2.2.1 := by
+  have := history_conservation cs {} h
+  simpa using this
+
+open Model.DeflOut in
+/-- A block is handed to `flush_block` only when nothing is pending and the stream is not finished
+    (the `debug_assert!(flush_remaining == 0)` of `flush_block`, as a theorem of the model). -/
+theorem staging_flushes_only_when_drained (s : Stage) (c : Call) (h : c.eng.WF) :
+    let r := compressInner s c.outLen c.flush c.eng
+    (r.flushed ≠ 0 ∨ r.epilogue = true) → s.pending = [] ∧ s.finished = false :=
+  flush_only_when_drained s c h
+
+open Model.DeflOut in
+/-- `Done` exactly when finished and drained; finished only by a Finish request; afterwards (and after
+    any refused call) every call is refused; a non-Finish request after Finish is refused. -/
+theorem staging_protocol (s : Stage) (c : Call) (h : c.eng.WF) :
+    (let r := compressInner s c.outLen c.flush c.eng
+     (r.status = stDone ↔ (r.stage.finished = true ∧ r.stage.pending = [] ∧ r.status ≠ stBadParam)) ∧
+     (r.stage.finished = true → s.finished = true ∨ c.flush = flFinish)) ∧
+    ((s.prev = stDone ∨ s.prev = stBadParam) → (compressInner s c.outLen c.flush c.eng).status = stBadParam) ∧
+    (s.lastFlush = flFinish → c.flush ≠ flFinish → (compressInner s c.outLen c.flush c.eng).status = stBadParam) :=
+  ⟨done_iff_finished_and_drained s c h, fun hp => (after_done_or_badparam s c hp).1, nonfinish_after_finish s c⟩
+
+/-- Non-vacuity: a concrete two-call history through a 3-byte buffer. -/
+example : (Model.DeflOut.runCalls {}
+    [⟨3, 0, { blocks := [[1, 2, 3, 4, 5]], drained := true, finalBlk := [] }⟩,
+     ⟨3, 4, { blocks := [], drained := true, finalBlk := [9] }⟩]).2.1 = [1, 2, 3, 4, 5] := by decide
 
 example : guard_rejects TDEFLStatus.Okay TDEFLFlush.Finish TDEFLFlush.None = true := by decide +kernel
 example : guard_rejects TDEFLStatus.Okay TDEFLFlush.Sync TDEFLFlush.Finish = false := by decide +kernel
